@@ -1,4 +1,5 @@
 import CvModel.Grid
+import CvModel.Value
 /-
   C15 (second half) — a grid written in multicolumn, restart or raw form and read back
   (`colvar_grid<T>::write_multicol / read_multicol`, `write_restart / read_restart`, `write_raw / read_raw`,
@@ -120,6 +121,48 @@ def decodeRestart (per : List Bool) (mult : Nat) : List (Tok α) → Option (Gri
           | none => none
           | some (nx, t4) => decodeRaw { nx := nx, lo := lo, w := w, per := per, mult := mult, data := [] } t4
   | _ => none
+
+/-! ### periodicity flags of a grid whose boundaries are replaced by a restart block
+
+  `colvar_grid<T>::parse_params` (colvargrid_def.h 236–312) replaces boundaries, widths and sizes by those of the block and, when
+  anything changed, calls `init_from_boundaries()` (colvargrid.h 383–420), which **re-derives each dimension's periodicity flag
+  from the boundaries just read**: `colvar::periodic_boundaries(lb, ub)` (colvar.cpp 2260) — the variable has a period and the
+  (periodic) distance between the two boundaries is below `1e-10` of the variable's width, i.e. the interval is a whole
+  number of periods.  The flags the reader had before play no role. -/
+
+/-- `colvar::periodic_boundaries(lb, ub)` -/
+def periodicFlag (period : Option α) (cvWidth lo hi : α) : Bool :=
+  match period with
+  | none => false
+  | some P => decide (Prim.sqrt (Cv.dist2S (some P) lo hi) / cvWidth < 1.0e-10)
+
+/-- flags of every dimension from its boundaries (`hi` as written in the block) -/
+def flagsOf (periods : List (Option α)) (cvWidths lo hi : List α) : List Bool :=
+  (List.range lo.length).map fun i =>
+    periodicFlag (periods.getD i none) (cvWidths.getD i 1.0) (lo.getD i 0.0) (hi.getD i 0.0)
+
+/-- `read_restart` into a grid on variables with the given periods: shape and data from the file, flags from the file's
+    boundaries -/
+def decodeRestartOn (periods : List (Option α)) (cvWidths : List α) (mult : Nat) : List (Tok α) → Option (GridFile α)
+  | Tok.int nd :: ts =>
+    match takeReals nd.toNat ts with
+    | none => none
+    | some (lo, t1) =>
+      match takeReals nd.toNat t1 with
+      | none => none
+      | some (hi, t2) =>
+        match takeReals nd.toNat t2 with
+        | none => none
+        | some (w, t3) =>
+          match takeInts nd.toNat t3 with
+          | none => none
+          | some (nx, t4) =>
+            decodeRaw { nx := nx, lo := lo, w := w, per := flagsOf periods cvWidths lo hi, mult := mult, data := [] } t4
+  | _ => none
+
+/-- upper boundaries as `write_restart` prints them -/
+def uppers (g : GridFile α) : List α :=
+  List.zipWith (fun (lw : α × α) (n : Int) => lw.1 + lw.2 * (n : α)) (g.lo.zip g.w) g.nx
 
 /-! ### gradient grids linked to a count grid (`colvar_grid_gradient::value_output / value_input`)
 
